@@ -59,6 +59,20 @@ func main() {
 			os.Exit(2)
 		}
 		os.Exit(replay(os.Args[2]))
+	case "freeze-anchors":
+		// prints the anchors table of the tree under analysis (reference tree only)
+		prog, err := load.Load(load.RepoDir(), load.ConfigDefault)
+		if err != nil {
+			fmt.Fprintln(os.Stderr, err)
+			os.Exit(2)
+		}
+		b, err := rules.FreezeAnchors(prog)
+		if err != nil {
+			fmt.Fprintln(os.Stderr, err)
+			os.Exit(2)
+		}
+		os.Stdout.Write(b)
+		fmt.Println()
 	default:
 		fmt.Fprintln(os.Stderr, "unknown command", os.Args[1])
 		os.Exit(2)
@@ -108,6 +122,9 @@ func check(id, tier string) (code int) {
 		}
 		rep.Config = cfg.Name
 		rep.Configs = append(rep.Configs, cfg.Name)
+		for _, n := range rules.ResolveRenames(prog) {
+			rep.Note("renamed helper: %s", n)
+		}
 		ctx := &rules.Ctx{P: prog, R: rep, Tier: tier,
 			Ix: fold.NewInitIndex(prog.ByPath[load.PkgWS], prog.ByPath[load.PkgWSUtil], prog.ByPath[load.PkgWSFlate])}
 		p.Run(ctx)
